@@ -191,6 +191,16 @@ theorem lg_cancelFound (st : St) (a : Nat) (w : Watch) (l : List Nat) : LogExt s
   exact ((((lg_setListOf st _ _).trans (lg_cancelNotify _ a w)).trans (lg_cancelHook _ w.type w.evi)).trans (lg_free _ a)).trans
     (lg_cancelRest _ _)
 
+theorem lg_cancelDetached (st : St) (a : Nat) : LogExt st (cancelDetached st a) := by
+  unfold cancelDetached
+  exact (lg_cancelNotify st a _).trans (lg_setW _ _ _)
+
+theorem lg_laterPre (st : St) (a : Nat) : LogExt st (laterPre st a) := by
+  unfold laterPre
+  split
+  · exact (lg_setW _ _ _)
+  · exact LogExt.refl _
+
 theorem lg_watchCancel (st : St) (a : Nat) : LogExt st (watchCancel st a) := by
   unfold watchCancel
   split
@@ -202,7 +212,9 @@ theorem lg_watchCancel (st : St) (a : Nat) : LogExt st (watchCancel st a) := by
       · split
         · exact (lg_fail st _)
         · split
-          · exact LogExt.refl st
+          · split
+            · exact lg_cancelDetached st a
+            · exact LogExt.refl st
           · exact lg_cancelFound st a _ _
 
 
@@ -427,10 +439,12 @@ theorem lg_laterLoopT (l : List Nat) : ∀ st : St, LogExt st (laterLoopT st l).
     · split
       · exact (lg_fail _ _)
       · split
-        · exact lg_laterCb _ _
+        · exact (lg_free _ a).trans (ih _)
         · split
-          · exact (lg_laterCb _ _).trans (lg_fail _ _)
-          · exact ((lg_laterCb _ _).trans (lg_free _ a)).trans (ih _)
+          · exact ((lg_laterPre st a).trans (lg_laterCb _ a))
+          · split
+            · exact (((lg_laterPre st a).trans (lg_laterCb _ a))).trans (lg_fail _ _)
+            · exact ((((lg_laterPre st a).trans (lg_laterCb _ a))).trans (lg_free _ a)).trans (ih _)
 
 
 theorem lg_laterLoop (l : List Nat) (st : St) : LogExt st (laterLoop st l) := lg_laterLoopT l st
